@@ -85,7 +85,7 @@ def run(ctx):
     X = ["-noGenerateSpecTE"]
 
     def leg_d():
-        ctx.design("Route/Route.tla", "Route_quick.cfg" if q else "Route.cfg", workers=W, timeout=1700, heap="16g", deadlock_off=True, extra=X,
+        ctx.design("Route/Route.tla", "Route_quick.cfg" if q else "Route.cfg", workers=W, timeout=1700, heap="6g", deadlock_off=True, extra=X,
                    note="every level option list (<=2 handlers, <=1 mount, 9 handler kinds, 2 mount patterns) x requests x 3 methods; mapper chains depth<=3")
         for cfg, inv in (("Route_mut_search.cfg", "MatcherAgrees"), ("Route_mut_reverse.cfg", "FirstMatch"),
                          ("Route_mut_icase.cfg", "FirstMatch"), ("Route_mut_wrongparam.cfg", "MapThenRoute")):
